@@ -23,8 +23,8 @@ ASSUMPTIONS = [
     "lists are used with the condition/action family of their own type; a regex list has one member (other uses are outside the domain)",
     "reference readers of the three vendors' policy / list syntaxes are in this module (namespaces per list kind)",
 ]
-FLOORS = {"quick": {"generator_runs": 2000, "policy_runs": 500, "refs_checked": 1000, "constructs_rejected": 100, "actions_segmented": 1000, "combined_operation_actions": 100, "wildcard_only_as_path_filter_refs": 50},
-          "thorough": {"generator_runs": 100000, "policy_runs": 25000, "refs_checked": 50000, "constructs_rejected": 5000, "actions_segmented": 50000, "combined_operation_actions": 5000, "wildcard_only_as_path_filter_refs": 2500}}
+FLOORS = {"quick": {"generator_runs": 2000, "policy_runs": 500, "refs_checked": 1000, "constructs_rejected": 100, "actions_segmented": 1000, "combined_operation_actions": 100, "wildcard_only_as_path_filter_refs": 50, "shared_policy_inputs_checked": 800},
+          "thorough": {"generator_runs": 100000, "policy_runs": 25000, "refs_checked": 50000, "constructs_rejected": 5000, "actions_segmented": 50000, "combined_operation_actions": 5000, "wildcard_only_as_path_filter_refs": 2500, "shared_policy_inputs_checked": 40000}}
 VENDORS = ["huawei", "arista", "cumulus"]
 MODELS = {"huawei": ("Huawei CE6870-48S6CQ-EI", "VRP V200R001C00SPC700"), "arista": ("Arista DCS-7368", "EOS 4.29.9.1M"),
           "cumulus": ("Mellanox SN3700-VS2RO", "Cumulus Linux 5.4.0")}
@@ -278,15 +278,27 @@ def wrap_policies(policies, rec):
     return policies
 
 
+def policies_snapshot(policies):
+    return [[p.name, [[getattr(st, "name", None), [repr(c) for c in st.match.conditions], [repr(a) for a in st.then.actions]] for st in p.statements]] for p in policies]
+
+
 def make_generators(vendor, program, ents):
     from annet import rpl_generators as RG
     from vf.harness_gen import FakeStorage
     comms, pls, asp, rds = build_entities(ents)
     rm = build_routemap(program)
+    shared = {}
 
     class Mixin:
+        vf_shared = shared
+
         def get_policies(self, device):
-            return rm.apply(device)
+            # the policies are built once per device and handed to every generator (what a provider that caches them does):
+            # generators only read them
+            if "policies" not in shared:
+                shared["policies"] = rm.apply(device)
+                shared["snapshot"] = policies_snapshot(shared["policies"])
+            return shared["policies"]
 
         def get_prefix_lists(self, device):
             return pls
@@ -573,6 +585,16 @@ def check_case(seed, acc):
         if missing:
             acc.violation("C14/%s/undefined-reference/%s" % (vendor, missing[0][0]), "a policy statement refers to a named list that the matching list generator does not define under that name",
                           dict(w, missing=[list(m) for m in missing], defined=sorted(map(list, defs))[:30]))
+            return w
+    # the policies handed to the generators are inputs: every generator may read them, none may change them
+    sh = next(iter(gens.values())).vf_shared
+    if "policies" in sh:
+        acc.count("shared_policy_inputs_checked")
+        after = policies_snapshot(sh["policies"])
+        if after != sh["snapshot"]:
+            diff = [(a_[0], x[0]) for a_, b_ in zip(sh["snapshot"], after) for x, y in zip(a_[1], b_[1]) if x != y]
+            acc.violation("C14/%s/generator-modified-its-input-policies" % vendor, "a generator changed the policy objects it was given (a later generator, or a second run, sees other policies)",
+                          dict(w, changed_statements=[list(x) for x in diff][:5]))
             return w
     acc.case([vendor, program, ents], nontrivial=(nrefs >= 1 or rejected >= 1))
     return w
